@@ -1610,8 +1610,14 @@ impl StorageEngine {
                             result.truncate(n);
                             result
                         } else {
-                            let n = (-count) as usize;
-                            let mut result = Vec::with_capacity(n);
+                            // -i64::MIN is not representable; no allocation sized by the request
+                            let n = match count.checked_neg() {
+                                Some(n) => n as usize,
+                                None => return Err(FerrousError::Command(CommandError::Generic(
+                                    "value is out of range".to_string()
+                                ))),
+                            };
+                            let mut result = Vec::new();
                             for _ in 0..n {
                                 if let Some(member) = members.choose(&mut rng) {
                                     result.push(member.clone());
